@@ -18,6 +18,14 @@ def handle : List String → String
         else "-"
       s!"parse={p} validate={if v then "ok" else "reject"} iter={it}"
     | none => "bad-op"
+  | ["c07.char", cp] =>
+    match cp.toNat? with
+    | some n =>
+      let c := Char.ofNat n
+      let f := fun (cs : List Char) =>
+        (if (parseDescription cs).isSome then "1" else "0") ++ (if validateSignature cs then "1" else "0")
+      f [c] ++ f ['a', c] ++ f ['(', c, ')']
+    | none => "bad-op"
   | _ => "bad-op"
 
 end Driver.C07
